@@ -113,6 +113,11 @@ def check(ctx):
     check_cpm_denominator(ctx)
     check_cpm_formula(ctx)
     check_chunking_ignores_gene_axis(ctx)
+    # the declared normalisation reaches the election as declared
+    from ..rules.forwarding import check_config_settings_as_requested
+    if check_config_settings_as_requested(ctx, {'normalization'}) < 1:
+        raise AnalysisError('_run_mapping: normalization is not handed to '
+                            'the election by keyword')
     # the non-negativity probe scans the whole matrix: its chunked loops
     # tile both axes exactly (shared with C05 / C16)
     from .C05 import check_tiles
@@ -641,6 +646,13 @@ def check_cpm_formula(ctx, rule='R-ARITH/cpm'):
                 return _poly_or_none(inner)
             if nm == 'sum' and t[2] and t[2][0] == ('param', 'data'):
                 return TOT
+            if nm == 'sum' and T.call_receiver(t) == ('param', 'data'):
+                return TOT
+            # np.einsum('ij->i', data) is the row total as well (how it
+            # accumulates is judged separately below)
+            if nm == 'einsum' and len(t[2]) == 2 and t[2][0] == (
+                    'const', "'ij->i'") and t[2][1] == ('param', 'data'):
+                return TOT
         return None
 
     def _poly_or_none(inner):
@@ -667,6 +679,38 @@ def check_cpm_formula(ctx, rule='R-ARITH/cpm'):
                '10^6 * data / (row total)')
     if n < 1:
         raise AnalysisError('convert_to_cpm: no return found')
+    # the totals are accumulated wider than the counts: np.sum / x.sum
+    # promote narrow integers to the platform integer, einsum and
+    # reductions given `dtype=` of the data accumulate in the type of the
+    # counts and wrap around for deep cells stored as uint8 / uint16
+    k = 0
+    for c in ast.walk(fi.node):
+        if not isinstance(c, ast.Call):
+            continue
+        f = c.func
+        nm = f.attr if isinstance(f, ast.Attribute) else getattr(
+            f, 'id', None)
+        reduces = nm in ('sum', 'einsum', 'reduce', 'add', 'nansum',
+                         'cumsum') and any(
+            isinstance(x, ast.Name) and x.id == 'data'
+            for x in ast.walk(c))
+        if not reduces:
+            continue
+        k += 1
+        narrow = nm in ('einsum', 'reduce') or any(
+            kw.arg == 'dtype' and any(
+                isinstance(x, ast.Attribute) and x.attr == 'dtype'
+                for x in ast.walk(kw.value)) for kw in c.keywords)
+        ctx.ob('R-CAP/row-total-accumulator', f'{fi.qual}:total#{k - 1}',
+               fi.loc(c), not narrow,
+               'row totals are accumulated by sum() in a widened type'
+               if not narrow else
+               f'`{unparse(c)[:50]}` accumulates the row totals in the '
+               'element type of the counts: for counts stored as uint8 / '
+               'uint16 the total of a deep cell wraps around and its CPM '
+               'profile is wrong')
+    if k < 1:
+        raise AnalysisError('convert_to_cpm: no row total found')
     ci = db.cls('cell_by_gene.cell_by_gene:CellByGeneMatrix')
     m = 0
     for mname in ('to_log2CPM', 'to_log2CPM_in_place'):
